@@ -8,6 +8,7 @@ verus! {
 
 global size_of usize == 8;
 
+//@include preamble/xbitstr_opaque.rs
 //@include preamble/state_types.rs
 //@include spec/cell_specs.rs
 
